@@ -55,6 +55,18 @@ def cases(tier: str, rng: random.Random) -> List[Case]:
                     c = std_case(v, x, rng.choice(["sync", "async"]), tag="c:hostile-scalar")
                     c.proj = "class"
                     out.append(c)
+        # uniqueness over items that look hashable and are not (a tuple holding a list / a dict / a set), next to plain
+        # unhashable and hashable ones
+        T_L, T_D, T_S = ("VTuple", [("VList", [G.I(1)])]), ("VTuple", [("VDict", [])]), ("VTuple", [G.I(1), ("VSet", [G.I(2)])])
+        for items in ([T_L, T_L], [T_L, T_D], [T_D, G.I(1), T_D], [T_S, ("VTuple", [G.I(1)])], [("VList", [G.I(1)]), T_L], [G.I(1), T_L, G.I(1)],
+                      [("VTuple", [("VTuple", [("VList", [])])])], [T_L]):
+            for v in (("ListV", ("AlwaysValid",), [("PUniqueItems",)], [], None), ("UTupleV", ("AlwaysValid",), [("PUniqueItems",)], [], Some(("CoTupleOrList",))),
+                      ("ListV", ("ListV", ("AlwaysValid",), [("PUniqueItems",)], [], None), [], [], None)):
+                x = ("VList", items) if v[1][0] != "ListV" else ("VList", [("VList", items)])
+                for m in ("sync", "async"):
+                    c = std_case(v, x, m, tag="c:unique-unhashable")
+                    c.proj = "class"
+                    out.append(c)
         # every text of the parse pool against every scalar kind whose default coercer reads text
         for kind in ("KDecimal", "KUuid", "KDate", "KDatetime"):
             v = ("Scalar", (kind,), Some((G.DEFAULT_CO[kind],)), [], [], [])
